@@ -32,9 +32,9 @@ def strategy(name):
     if name == "fnv":
         return None, "fnv", False
     if name == "md5":
-        return H.default_md5, "ext", True
+        return H.default_md5, "md5", False
     if name == "sha256":
-        return H.default_sha256, "ext", True
+        return H.default_sha256, "sha256", False
     if name == "custom":
         return custom_strategy, "ext", True
     kind, inner = name.split(":")
